@@ -22,6 +22,11 @@ From the `ast` of `src/datamodel_code_generator/__init__.py`:
 * `chdir()` is flattened into save / try / chdir / yield / finally steps, separately for the
   `path is None` branch and the other one.
 
+* `parseCallArguments`: the arguments `generate()` passes to `parser.parse(…)` (positional ones as `<positional>`, keywords by
+  name). The formatting stage (black / isort / ruff configuration discovery, isort's first-party detection) runs inside
+  `parse()` and looks at the process's working directory unless it is told otherwise; Props/C08 reads this list and the
+  `chdirEnter` step (`what` = source text `chdir(output)`) as the reviewed shape "formatting happens in the output directory".
+
 Moving an `open` above `parser.parse()`, adding a may-raise call to the write loop, or dropping
 the `finally` changes these tables and the theorems of Props/C20 are re-checked against them.
 """
@@ -384,6 +389,16 @@ def chdir_tables(fn: ast.FunctionDef) -> tuple[list[tuple[str, str]], list[tuple
     return both, both
 
 
+def parse_call_arguments(fn: ast.FunctionDef) -> list[str]:
+    """what `generate()` passes to `parser.parse(...)`: `<positional>` per positional argument, keyword names, `**` for a splat"""
+    out: list[str] = []
+    for node in ast.walk(fn):
+        if isinstance(node, ast.Call) and dotted(node.func) == "parser.parse":
+            out += ["<positional>"] * len(node.args)
+            out += [kw.arg if kw.arg is not None else "**" for kw in node.keywords]
+    return out
+
+
 def tables():
     tree = ast.parse(SRC.read_text())
     fns = {n.name: n for n in tree.body if isinstance(n, ast.FunctionDef)}
@@ -459,6 +474,13 @@ def generate() -> str:
     clst("chdirNone", "`chdir(None)`", none_steps)
     clst("chdirSome", "`chdir(path)`, path not None", some_steps)
     out.append(f"/-- `chdir` is a `contextlib.contextmanager` generator -/\ndef chdirIsContextManager : Bool := {'true' if decorated else 'false'}\n")
+    tree = ast.parse(SRC.read_text())
+    gen_fn = next(n for n in tree.body if isinstance(n, ast.FunctionDef) and n.name == "generate")
+    out.append(
+        "/-- the arguments `generate()` passes to `parser.parse(…)` (`<positional>` / keyword names) -/\ndef parseCallArguments : List String :=\n  ["
+        + ", ".join(lean_string(a) for a in parse_call_arguments(gen_fn))
+        + "]\n"
+    )
     out.append("end Dcg.Gen.GenerateSteps")
     return "\n".join(out) + "\n"
 
